@@ -399,4 +399,111 @@ theorem slice_full (l : Str) (acc : Nat) : sliceFrom l acc acc (acc + byteLen l)
     rw [this]
     exact ih _
 
+/-! ## what the span boundaries depend on
+
+The *geometry* of a tree — program texts, token char spans, piece byte offsets, nesting — is what the
+tokenizer and the word parser compute from the line and their option flags (`TokenizerOptions`,
+`ParserOptions`: extglob, posix, sh mode).  Everything else in the tree (the tokenized word text, how
+the shell classifies it: keyword / alias / function / builtin / found on PATH / existing path, the
+piece kinds) comes from the rest of the shell's state, and together with the cursor only picks
+*kinds*. -/
+
+mutual
+  def geomPiece : Piece → Piece
+    | .leaf s e _ => .leaf s e .text
+    | .dq s e subs => .dq s e (geomPieces subs)
+    | .sub s e openLen p => .sub s e openLen (geomProg p)
+  def geomPieces : List Piece → List Piece
+    | [] => []
+    | p :: rest => geomPiece p :: geomPieces rest
+  def geomToks : List Tok → List Tok
+    | [] => []
+    | .op s e :: rest => .op s e :: geomToks rest
+    | .wordFail s e _ _ :: rest => .wordFail s e [] .notFound :: geomToks rest
+    | .word s e _ _ ps :: rest => .word s e [] .notFound (geomPieces ps) :: geomToks rest
+  /-- the tree with every word text, classification and piece kind erased -/
+  def geomProg : Prog → Prog
+    | .failed line => .failed line
+    | .ok line toks => .ok line (geomToks toks)
+end
+
+theorem geomProg_line (p : Prog) : (geomProg p).line = p.line := by
+  cases p <;> simp [geomProg, Prog.line]
+
+/-- the byte ranges of the spans, kinds dropped -/
+def ranges (l : List Span) : List (Nat × Nat) := l.map (fun s => (s.start, s.stop))
+
+/-- two builder states that differ in kinds only -/
+def Sim (h h' : HS) : Prop := ranges h.spans = ranges h'.spans ∧ h.cur = h'.cur ∧ h.trap = h'.trap
+
+theorem Sim.refl (h : HS) : Sim h h := ⟨rfl, rfl, rfl⟩
+theorem Sim.symm {a b : HS} (h : Sim a b) : Sim b a := ⟨h.1.symm, h.2.1.symm, h.2.2.symm⟩
+theorem Sim.trans {a b c : HS} (h1 : Sim a b) (h2 : Sim b c) : Sim a c :=
+  ⟨h1.1.trans h2.1, h1.2.1.trans h2.2.1, h1.2.2.trans h2.2.2⟩
+
+theorem sim_appendSpan (top : Str) (h h' : HS) (k k' : Kind) (s e : Nat) (hs : Sim h h') :
+    Sim (appendSpan top h k s e) (appendSpan top h' k' s e) := by
+  obtain ⟨h1, h2, h3⟩ := hs
+  refine ⟨?_, rfl, ?_⟩
+  · simp only [appendSpan, h2]
+    by_cases hg : s > h'.cur <;> by_cases hlt : s < e <;>
+      simp [hg, hlt, ranges, List.map_append] <;> simpa [ranges] using h1
+  · simp only [appendSpan, h3]
+
+theorem sim_skipAhead (top : Str) (h h' : HS) (d : Nat) (hs : Sim h h') :
+    Sim (skipAhead top h d) (skipAhead top h' d) := sim_appendSpan top h h' _ _ d d hs
+
+theorem sim_setMissing (h h' : HS) (k k' : Kind) (hs : Sim h h') : Sim (setMissing h k) (setMissing h' k') := hs
+
+section
+variable (top : Str) (c c' : Nat)
+
+mutual
+  theorem sim_hlPiece (p : Piece) (d d' : Kind) (off : Nat) (h h' : HS) (hs : Sim h h') :
+      Sim (hlPiece top c p d off h) (hlPiece top c' (geomPiece p) d' off h') :=
+    match p with
+    | .leaf s e k => by
+      simp only [geomPiece, hlPiece]
+      exact sim_skipAhead _ _ _ _ (sim_appendSpan _ _ _ _ _ _ _ (sim_skipAhead _ _ _ _ hs))
+    | .dq s e subs => by
+      simp only [geomPiece, hlPiece]
+      exact sim_skipAhead _ _ _ _ (sim_setMissing _ _ _ _
+        (sim_hlPieces subs _ _ off _ _ (sim_setMissing _ _ _ _ (sim_skipAhead _ _ _ _ hs))))
+    | .sub s e openLen prog => by
+      simp only [geomPiece, hlPiece]
+      exact sim_skipAhead _ _ _ _ (sim_setMissing _ _ _ _
+        (sim_hlProg prog _ _ _ (sim_setMissing _ _ _ _ (sim_skipAhead _ _ _ _ hs))))
+  theorem sim_hlPieces (ps : List Piece) (d d' : Kind) (off : Nat) (h h' : HS) (hs : Sim h h') :
+      Sim (hlPieces top c ps d off h) (hlPieces top c' (geomPieces ps) d' off h') :=
+    match ps with
+    | [] => by simp only [geomPieces, hlPieces]; exact hs
+    | p :: rest => by
+      simp only [geomPieces, hlPieces]
+      exact sim_hlPieces rest d d' off _ _ (sim_hlPiece p d d' off h h' hs)
+  theorem sim_hlToks (line : Str) (ts : List Tok) (off : Nat) (saw saw' : Bool) (h h' : HS) (hs : Sim h h') :
+      Sim (hlToks top c line ts off saw h) (hlToks top c' line (geomToks ts) off saw' h') :=
+    match ts with
+    | [] => by simp only [geomToks, hlToks]; exact hs
+    | .op s e :: rest => by
+      simp only [geomToks, hlToks]
+      exact sim_hlToks line rest off saw saw' _ _ (sim_appendSpan _ _ _ _ _ _ _ hs)
+    | .wordFail s e w cls :: rest => by
+      simp only [geomToks, hlToks]
+      exact sim_hlToks line rest off saw saw' _ _ hs
+    | .word s e w cls ps :: rest => by
+      simp only [geomToks, hlToks]
+      exact sim_hlToks line rest off _ _ _ _ (sim_hlPieces ps _ _ _ h h' hs)
+  theorem sim_hlProg (p : Prog) (off : Nat) (h h' : HS) (hs : Sim h h') :
+      Sim (hlProg top c p off h) (hlProg top c' (geomProg p) off h') :=
+    match p with
+    | .failed line => by
+      simp only [geomProg, hlProg]
+      exact sim_appendSpan _ _ _ _ _ _ _ hs
+    | .ok line toks => by
+      simp only [geomProg, hlProg]
+      exact sim_skipAhead _ _ _ _ (sim_hlToks line toks off false false h h' hs)
+end
+
+end
+
 end BrushVerif.Highlight
